@@ -25,7 +25,9 @@ func c10val(label string) sdk.Int {
 	return v
 }
 
-func c10newUnit(tag string) c10unit { return c10unit{c10val(tag + "-cpu"), c10val(tag + "-mem"), c10val(tag + "-sto")} }
+func c10newUnit(tag string) c10unit {
+	return c10unit{c10val(tag + "-cpu"), c10val(tag + "-mem"), c10val(tag + "-sto")}
+}
 
 func (u c10unit) units(eps []types.Endpoint) types.ResourceUnits {
 	return types.ResourceUnits{
@@ -36,7 +38,9 @@ func (u c10unit) units(eps []types.Endpoint) types.ResourceUnits {
 	}
 }
 
-func (u c10unit) eq(v c10unit) bool { return verif_And(u.cpu.Equal(v.cpu), u.mem.Equal(v.mem), u.sto.Equal(v.sto)) }
+func (u c10unit) eq(v c10unit) bool {
+	return verif_And(u.cpu.Equal(v.cpu), u.mem.Equal(v.mem), u.sto.Equal(v.sto))
+}
 
 func c10count(label string) uint32 {
 	c := verif_U32(label)
@@ -113,13 +117,13 @@ func c10run(nd, nm, maxEp int) {
 	verif_ObserveBool("accepted", err == nil)
 }
 
-func Harness_C10_1x1() { c10run(1, 1, 1) }
-func Harness_C10_1x2() { c10run(1, 2, 1) }
-func Harness_C10_2x1() { c10run(2, 1, 1) }
-func Harness_C10_2x2() { c10run(2, 2, 0) }
-func Harness_C10_2x3() { c10run(2, 3, 0) }
-func Harness_C10_3x2() { c10run(3, 2, 0) }
-func Harness_C10_3x3() { c10run(3, 3, 0) }
+func Harness_C10_1x1()       { c10run(1, 1, 1) }
+func Harness_C10_1x2()       { c10run(1, 2, 1) }
+func Harness_C10_2x1()       { c10run(2, 1, 1) }
+func Harness_C10_2x2()       { c10run(2, 2, 0) }
+func Harness_C10_2x3()       { c10run(2, 3, 0) }
+func Harness_C10_3x2()       { c10run(3, 2, 0) }
+func Harness_C10_3x3()       { c10run(3, 3, 0) }
 func Harness_C10_endpoints() { c10run(1, 1, 2) }
 
 // group-name matching across the whole manifest
@@ -127,12 +131,16 @@ func Harness_C10_groups() {
 	names := []string{"a", "b", "c"}
 	nd, nm := 1+verif_Choice("n-dgroups", 2), 1+verif_Choice("n-mgroups", 2)
 	u := c10unit{sdk.NewInt(100), sdk.NewInt(1 << 20), sdk.NewInt(1 << 20)}
-	var dgs []types.ResourceGroup
+	// the on-chain groups as the provider fetches them: every group of the deployment, whatever
+	// its state (a closed or paused group is still part of what the chain agreed)
+	var dgs []dtypes.Group
 	var dn, mn []string
+	states := []dtypes.Group_State{dtypes.GroupOpen, dtypes.GroupPaused, dtypes.GroupInsufficientFunds, dtypes.GroupClosed}
 	for i := 0; i < nd; i++ {
 		n := names[verif_Choice("d-name", 3)]
 		dn = append(dn, n)
-		dgs = append(dgs, dtypes.GroupSpec{Name: n, Resources: []dtypes.Resource{{Resources: u.units(nil), Count: 1}}})
+		dgs = append(dgs, dtypes.Group{State: states[verif_Choice("d-state", 4)],
+			GroupSpec: dtypes.GroupSpec{Name: n, Resources: []dtypes.Resource{{Resources: u.units(nil), Count: 1}}}})
 	}
 	var mgs []manifest.Group
 	for j := 0; j < nm; j++ {
@@ -140,7 +148,30 @@ func Harness_C10_groups() {
 		mn = append(mn, n)
 		mgs = append(mgs, manifest.Group{Name: n, Services: []manifest.Service{{Name: "s", Image: "i", Resources: u.units(nil), Count: 1}}})
 	}
-	err := validateManifestDeploymentGroups(mgs, dgs)
+	mani := manifest.Manifest(mgs)
+	err := ValidateManifestWithDeployment(&mani, dgs)
+	same := nd == nm
+	for i := range dn {
+		for j := range dn {
+			same = same && (i == j || dn[i] != dn[j])
+		}
+	}
+	for _, m := range mn {
+		found := false
+		for _, d := range dn {
+			found = found || d == m
+		}
+		same = same && found
+	}
+	for i := range mn {
+		for j := range mn {
+			same = same && (i == j || mn[i] != mn[j])
+		}
+	}
+	if same {
+		verif_Reach("groups-equal")
+		verif_Assert(err == nil, "C10 a manifest whose groups are exactly the on-chain groups is not rejected")
+	}
 	if err == nil {
 		verif_Reach("groups-accepted")
 		verif_Assert(nd == nm, "C10 accepted manifest has as many groups as the deployment")
